@@ -72,7 +72,13 @@ func (fr *Frame) guardedCheck(st *State, fa *ssa.FieldAddr, base Val, pos token.
 	}
 	if write {
 		for _, f := range tc.Flags["immutable"] {
-			if f == fname {
+			isWriter := false
+			for _, w := range tc.Flags["writers"] {
+				if w == fr.oblFunc() || w == fr.fname {
+					isWriter = true
+				}
+			}
+			if f == fname && !isWriter {
 				r.require(st, "guarded", fr.oblFunc(), fr.oblName(fmt.Sprintf("write-immutable(%s.%s)@%s", sk, fname, r.eng.pos(pos))), freshObj, tc.Tags, pos,
 					fmt.Sprintf("write to immutable field %s.%s after construction", sk, fname))
 			}
@@ -143,14 +149,32 @@ func (fr *Frame) lockOp(st *State, c *ssa.CallCommon, lock Val, acquire bool, po
 		tags = tc.Tags
 	}
 	if acquire {
-		r.require(st, "lock-order", fr.oblFunc(), fr.oblName(fmt.Sprintf("acquire(%s)@%s", name, r.eng.pos(pos))), sNot(sSelect(held, lock.S)), tags, pos, "lock "+name+" acquired while already held (self-deadlock)")
+		asite := fr.callAnchor(c, "")
+		if asite == "" {
+			asite = r.eng.pos(pos)
+		}
+		r.require(st, "lock-order", fr.oblFunc(), fr.oblName(fmt.Sprintf("acquire(%s)@%s", name, asite)), sNot(sSelect(held, lock.S)), tags, pos, "lock "+name+" acquired while already held (self-deadlock)")
 		r.set(st, "g|$held", sStore(held, lock.S, "true"))
 		fr.r.locks = append(fr.r.locks, lockRec{lock.S, sk, field})
 		if tc != nil && ok && sk != "$globals" {
 			// other goroutines may have changed the guarded fields: havoc unless the object is fresh
+			pre := st.clone()
 			freshObj := fmt.Sprintf("(> (root %s) %s)", base.S, fr.topEntryHeap())
 			so := structOf(base.T)
 			for _, f := range tc.GuardedBy[field] {
+				if strings.HasPrefix(f, "ghost:") {
+					g := f[6:]
+					key := "g|" + g
+					if _, isG := r.eng.cs.Ghosts[g]; isG && strings.HasPrefix(r.keySort(key), "(Array Int") {
+						old := r.get(st, key)
+						rng := arrayRange(r.keySort(key))
+						nv := r.facts.Fresh("lk_"+g, rng)
+						hv := sIte(freshObj, sSelect(old, base.S), nv)
+						r.set(st, key, sStore(old, base.S, hv))
+						r.baseStore(st, key, base.S, hv)
+					}
+					continue
+				}
 				for i := 0; i < so.NumFields(); i++ {
 					if so.Field(i).Name() != f {
 						continue
@@ -159,13 +183,29 @@ func (fr *Frame) lockOp(st *State, c *ssa.CallCommon, lock Val, acquire bool, po
 					if fp.K == KPtr {
 						old := r.load(st, fp)
 						nv := r.freshVal("lk_"+f, so.Field(i).Type(), st)
-						r.store(st, fp, r.iteVal(freshObj, old, nv))
+						hv := r.iteVal(freshObj, old, nv)
+						r.store(st, fp, hv)
+						if fp.P != nil && fp.P.Kind == PField && isScalar(hv.K) {
+							r.baseStore(st, "F|"+fp.P.Struct+"|"+fp.P.Field, fp.P.Base, hv.S)
+						}
 					} else if fp.K == KRef {
 						r.havocObject(st, fp, 0)
 					}
 				}
 			}
 			fr.assumeTypeInv(st, tc, base)
+			// rely: what other critical sections may have done since we last looked
+			cf := fr.typeInvFrame(tc, base)
+			cf.entry = pre
+			for _, c := range tc.Rely[field] {
+				v, err := cf.eval(st, c.Expr, nil)
+				if err != nil {
+					r.evalErrors = append(r.evalErrors, fmt.Sprintf("type %s rely %q: %v", tc.Name, c.Text, err))
+					continue
+				}
+				r.assume(st, v.S)
+			}
+			r.lockSnap[lock.S] = st.clone()
 		}
 		if tc != nil && sk == "$globals" {
 			for _, f := range tc.GuardedBy[field] {
@@ -180,9 +220,20 @@ func (fr *Frame) lockOp(st *State, c *ssa.CallCommon, lock Val, acquire bool, po
 		}
 		return
 	}
-	r.require(st, "lock-balance", fr.oblFunc(), fr.oblName(fmt.Sprintf("release(%s)@%s", name, r.eng.pos(pos))), sSelect(held, lock.S), tags, pos, "unlock of "+name+" which is not held")
+	site := fr.callAnchor(c, "")
+	if site == "" {
+		site = r.eng.pos(pos)
+	}
+	r.require(st, "lock-balance", fr.oblFunc(), fr.oblName(fmt.Sprintf("release(%s)@%s", name, site)), sSelect(held, lock.S), tags, pos, "unlock of "+name+" which is not held")
 	if tc != nil && ok && sk != "$globals" {
-		fr.checkTypeInv(st, tc, base, pos, "inv@unlock")
+		fr.checkTypeInvAt(st, tc, base, pos, "inv@unlock", site)
+		if snap := r.lockSnap[lock.S]; snap != nil {
+			cf := fr.typeInvFrame(tc, base)
+			cf.entry = snap
+			for i, c := range tc.Rely[field] {
+				cf.requireExpr(st, "guarantee@unlock", fr.oblFunc(), fr.oblName(fmt.Sprintf("%s.%s@%s", tc.Name, c.Label(fmt.Sprintf("rely#%d", i+1)), site)), c.Expr, nil, c.Tags, pos, c.Text)
+			}
+		}
 	}
 	r.set(st, "g|$held", sStore(held, lock.S, "false"))
 }
@@ -207,9 +258,13 @@ func (fr *Frame) assumeTypeInv(st *State, tc *TypeContract, base Val) {
 }
 
 func (fr *Frame) checkTypeInv(st *State, tc *TypeContract, base Val, pos token.Pos, kind string) {
+	fr.checkTypeInvAt(st, tc, base, pos, kind, fr.r.eng.pos(pos))
+}
+
+func (fr *Frame) checkTypeInvAt(st *State, tc *TypeContract, base Val, pos token.Pos, kind, site string) {
 	cf := fr.typeInvFrame(tc, base)
 	for i, c := range tc.Inv {
-		cf.requireExpr(st, kind, fr.oblFunc(), fr.oblName(fmt.Sprintf("%s.%s@%s", tc.Name, c.Label(fmt.Sprintf("#%d", i+1)), fr.r.eng.pos(pos))), c.Expr, nil, c.Tags, pos, c.Text)
+		cf.requireExpr(st, kind, fr.oblFunc(), fr.oblName(fmt.Sprintf("%s.%s@%s", tc.Name, c.Label(fmt.Sprintf("#%d", i+1)), site)), c.Expr, nil, c.Tags, pos, c.Text)
 	}
 }
 
